@@ -51,6 +51,8 @@ def run(chk):
              "function uses a visited mark against cyclic data, every recursive call lies after the mark on every path")
     chk.rule("DEST.sized", "every standard algorithm call that writes through an output iterator appends (back_inserter) or writes to begin() of a "
              "local container constructed with the source range's own size()")
+    chk.rule("GUARD.unsigned-decrement", "every loop that counts an unsigned index down tests it strictly (v > e) or against a literal >= 1: it cannot step below "
+             "zero and wrap")
     chk.rule("T.comparator", "LocMinSorter, IntersectListSort, HorzSegSorter are strict weak orders")
     for cfg in cfgs:
         db = AstDB(cfg)
@@ -63,6 +65,7 @@ def run(chk):
         e13.rule_links(db, chk, cfg)
         e9.rule_recursion(db, chk, cfg)
         e9.rule_dest_sized(db, chk, cfg)
+        e9.rule_unsigned_decrement(db, chk, cfg)
         e10.rule_iter_stable(db, chk, cfg, lambda cls: e2.E2(db, chk, cfg, cls))
         # dangling OutPt / Active pointers in the sweep engine: the vectors that hold raw pointers into the output rings and the AEL
         # (horz_seg_list_, horz_join_list_, intersect_nodes_) and the owning outrec_list_ are empty whenever a public method returns -
@@ -108,6 +111,7 @@ def run(chk):
     chk.floor("LINK.consistent-at-throw", 60 * n)
     chk.floor("RECURSION", 14 * n)
     chk.floor("DEST.sized", 8 * n)
+    chk.floor("GUARD.unsigned-decrement", 3 * n)
     _controls(chk)
     chk.explanation = (
         "Clauses of C10 whose truth is visible in the code are decided for all inputs: non-emptiness guards (this is the rule that found "
